@@ -99,7 +99,8 @@ def check_case(shape, index, clsname="BinaryTreeNode", idmode="unique"):
 def check_regroup(text):
     """The associative rule is a rotation: applied in place at every node where it reports applicable, the
     whole tree must be exactly what node.rotate() produces on an identical tree - same in-order sequence of
-    node ids, same links, node above its old parent."""
+    node ids, same links, node above its old parent.  Also after the tree was printed and an operand pair was
+    commuted in place first (two-rule sequences), and judged by the library's own printer as well as by links."""
     from ..explore import rewrite as RW
     from .. import sig as SG
     from ..oracle.audit import link_audit as audit_links
@@ -110,36 +111,113 @@ def check_regroup(text):
     except Exception:  # noqa
         return out
     rule = RW.config("AG")
-    for index, n in enumerate(RW.inorder(probe)):
-        if not rule.can_apply_to(n):
-            continue
-        t1 = RW.parse(text).clone()
-        t2 = t1.clone()  # same ids as t1
-        n1 = RW.inorder(t1)[index]
-        n2 = RW.inorder(t2)[index]
-        ids_before = [x.id for x in RW.inorder(t1)]
+    cs = RW.config("CS+")
+    pre_steps = [None] + [i for i, n in enumerate(RW.inorder(probe)) if cs.can_apply_to(n)]
+    for pre in pre_steps:
+        base = RW.parse(text).clone()
+        if pre is not None:
+            try:
+                str(base)
+                cs.apply_to(RW.inorder(base)[pre])
+                base = RW.get_root(base)
+                str(base)
+            except Exception:  # noqa
+                continue
         try:
-            res = rule.apply_to(n1).result
-        except Exception as e:  # noqa
-            out.append(("regroup-raises:" + type(e).__name__, f"{text!r} at in-order {index}: {e!r}"))
+            cand = [i for i, n in enumerate(RW.inorder(base)) if rule.can_apply_to(n)]
+        except Exception:  # noqa
             continue
-        n2.rotate()
-        r1, r2 = RW.get_root(res), RW.get_root(n2)
-        probs = audit_links(r1)
-        if probs:
-            out.append(("regroup-links-inconsistent", f"{text!r} at in-order {index}: {probs[0]}"))
-            continue
-        ids1 = [x.id for x in RW.inorder(r1)]
-        if ids1 != ids_before:
-            out.append(("regroup-changes-inorder-sequence", f"{text!r} at in-order {index}: node order {ids_before} -> {ids1}"))
-        elif SG.sig(r1) != SG.sig(r2) or [x.id for x in RW.inorder(r2)] != ids1:
-            out.append(("regroup-is-not-the-rotation", f"{text!r} at in-order {index}: {SG.show(SG.sig(r1))} vs rotate() {SG.show(SG.sig(r2))}"))
-        else:
-            # the very node objects must sit where rotation puts them: compare ids position by position
+        for index in cand:
+            t1 = RW.parse(text).clone()
+            if pre is not None:
+                str(t1)
+                cs.apply_to(RW.inorder(t1)[pre])
+                t1 = RW.get_root(t1)
+                str(t1)
+            t2 = SG.build(SG.sig(t1))  # a freshly built identical tree: nothing remembered about it anywhere
+            for a, b in zip(RW.inorder(t1), RW.inorder(t2)):
+                b.id = a.id
+            n1 = RW.inorder(t1)[index]
+            n2 = RW.inorder(t2)[index]
+            ids_before = [x.id for x in RW.inorder(t1)]
+            where = f"{text!r}" + (f" after commuting in-order {pre}" if pre is not None else "") + f" at in-order {index}"
+            try:
+                res = rule.apply_to(n1).result
+            except Exception as e:  # noqa
+                out.append(("regroup-raises:" + type(e).__name__, f"{where}: {e!r}"))
+                continue
+            n2.rotate()
+            try:
+                r1, r2 = RW.get_root(res), RW.get_root(n2)
+                probs = audit_links(r1)
+                if probs:
+                    out.append(("regroup-links-inconsistent", f"{where}: {probs[0]}"))
+                    continue
+                ids1 = [x.id for x in RW.inorder(r1)]
+            except SG.Cyclic as e:
+                out.append(("regroup-links-inconsistent", f"{where}: cycle ({e})"))
+                continue
+            if ids1 != ids_before:
+                out.append(("regroup-changes-inorder-sequence", f"{where}: node order {ids_before} -> {ids1}"))
+                continue
+
             def layout(r):
                 return [(x.id, x.left.id if x.left is not None else None, x.right.id if x.right is not None else None) for x in RW.inorder(r)]
-            if layout(r1) != layout(r2):
-                out.append(("regroup-is-not-the-rotation", f"{text!r} at in-order {index}: same text, other node objects moved"))
+
+            if SG.sig(r1) != SG.sig(r2) or layout(r1) != layout(r2):
+                out.append(("regroup-is-not-the-rotation", f"{where}: {SG.show(SG.sig(r1))} vs rotate() {SG.show(SG.sig(r2))}"))
+                continue
+            # the library's own view of the regrouped tree (printer, evaluator) must agree with its links
+            fresh = SG.build(SG.sig(r1))
+            try:
+                p1, p2 = str(r1), str(fresh)
+            except Exception as e:  # noqa
+                out.append(("regrouped-tree-does-not-print", f"{where}: {e!r}"))
+                continue
+            if p1 != p2:
+                out.append(("regrouped-tree-prints-differently-from-its-links", f"{where}: prints {p1!r}, its links say {p2!r}"))
+    seen, res_ = set(), []
+    for c, d in out:
+        if c not in seen:
+            seen.add(c)
+            res_.append((c, d))
+    return res_
+
+
+def check_expression_rotation(text):
+    """rotate() on every node of a real parsed expression tree (all node classes, one-operand nodes included)"""
+    from ..explore import rewrite as RW
+    from .. import sig as SG
+    from ..oracle.audit import link_audit as audit_links
+
+    out = []
+    try:
+        probe = RW.parse(text)
+    except Exception:  # noqa
+        return out
+    n = len(RW.inorder(probe))
+    for index in range(n):
+        tree = RW.parse(text).clone()
+        nodes = RW.inorder(tree)
+        node = nodes[index]
+        if node.parent is None:
+            continue
+        before = [id(x) for x in nodes]
+        try:
+            node.rotate()
+        except Exception as e:  # noqa
+            out.append(("expression-rotation-raises:" + type(e).__name__, f"{text!r} rotating in-order {index} ({type(node).__name__}): {e!r}"))
+            continue
+        try:
+            root = RW.get_root(node)
+            probs = audit_links(root)
+            after = [id(x) for x in RW.inorder(root)]
+        except SG.Cyclic:
+            probs, after = ["cycle"], None
+        if probs:
+            out.append(("expression-rotation-links-inconsistent", f"{text!r} rotating in-order {index}: {probs[0]}"))
+        elif after != before:
+            out.append(("expression-rotation-changes-inorder", f"{text!r} rotating in-order {index} ({type(node).__name__})"))
     seen, res_ = set(), []
     for c, d in out:
         if c not in seen:
@@ -160,6 +238,7 @@ def regroup_texts():
 
 
 _RT = []
+_ET = []
 
 
 def _work(task):
@@ -169,6 +248,13 @@ def _work(task):
             acc.count("regroup_texts")
             for core, detail in check_regroup(_RT[i]):
                 acc.violation(core, {"regroup": _RT[i]}, detail)
+        return acc
+    if task[0] == "exprrot":
+        acc = Acc()
+        for i in range(task[1], task[2]):
+            acc.count("expression_rotation_texts")
+            for core, detail in check_expression_rotation(_ET[i]):
+                acc.violation(core, {"exprrot": _ET[i]}, detail)
         return acc
     n, lo, hi, clsname = task
     acc = Acc()
@@ -203,6 +289,9 @@ def run(tier, seed):
                 tasks.append((n, lo, hi, clsname))
     _RT[:] = regroup_texts()
     tasks += [("regroup", lo, hi) for lo, hi in par.chunks(len(_RT), 32)]
+    from ..gen import exprs as X
+    _ET[:] = X.uniform(4 if tier == "quick" else 5, leaves=["2", "x", "-3"]) + ["a + -b", "2 * sgn(x)", "-(a + b) * c", "x^-y + 3!", "4x^2 = -y"]
+    tasks += [("exprrot", lo, hi) for lo, hi in par.chunks(len(_ET), 32)]
     k = seed % len(tasks)
     tasks = tasks[k:] + tasks[:k]
     acc = merge_all(par.pmap(_work, tasks))
@@ -217,6 +306,7 @@ def run(tier, seed):
                 "associative rule is applied at every applicable node of same-operator groupings in 10 contexts and must equal "
                 "node.rotate() on an identical tree, node for node",
         "regroup_texts": acc.n["regroup_texts"],
+        "expression_rotation_texts": acc.n["expression_rotation_texts"],
         "exhaustive": True,
         "bound": {"max_nodes": N},
     }
@@ -226,6 +316,8 @@ def run(tier, seed):
 def replay(case):
     if "regroup" in case:
         return check_regroup(case["regroup"])
+    if "exprrot" in case:
+        return check_expression_rotation(case["exprrot"])
     mode = case.get("idmode", "unique")
     return [(c + ("" if mode == "unique" else f"|ids={mode}"), d)
             for c, d in check_case(S.parse(case["shape"]), case["index"], case.get("cls", "BinaryTreeNode"), mode)]
